@@ -21,6 +21,12 @@ Next == \/ /\ Len(s) < MaxLen /\ ~done
                 PrintT("@@CASE " \o ToJson([content |-> c, pos |-> p - 1, want |-> Render(c, p)]))
            /\ \A c \in FarCases : \A p \in {1, 300, Len(c) - 10, Len(c) - 8, Len(c) - 5, Len(c) - 3, Len(c) - 2, Len(c)} :
                 PrintT("@@CASE " \o ToJson([content |-> c, pos |-> p - 1, want |-> Render(c, p)]))
+           \* long lines of bytes outside ASCII (continuation bytes only; two- and three-byte characters across the 200-byte cut):
+           \* what the excerpt shows there is not specified, rendering must still not panic
+           /\ \A c \in {[i \in 1..300 |-> 128], [i \in 1..300 |-> IF i % 2 = 1 THEN 195 ELSE 169],
+                        [i \in 1..198 |-> 97] \o <<226, 130, 172>> \o [i \in 1..50 |-> 98], <<97, 10>> \o [i \in 1..260 |-> 191]} :
+                \A p \in {1, 2, 199, 200, 201, Len(c)} :
+                  PrintT("@@CASE " \o ToJson([content |-> c, pos |-> p - 1, want |-> [conv |-> "none", line |-> -1, text |-> <<-1>>, col |-> -1]]))
 Spec == Init /\ [][Next]_<<s, done>>
 \* sanity of the requirement: the caret column never points past the shown text
 ColInside == TRUE
